@@ -25,10 +25,12 @@ LEVEL = "proof"
 EXHAUSTIVE = False
 RULE = ("(1) exhaustive: all products U_ab U_cd with a,b,c,d in {p,q,r} under "
         "Einstein and all 8 provided target sets, plus variants with a third "
-        "object / denominator carrying one index; (2) structured random "
+        "object / denominator carrying one index, plus the same products "
+        "carried by bra-ket symmetric and bra-ket antisymmetric tensors; (2) structured random "
         "products of 2-6 unitary factors (first/second position pairs, chains, "
         "squares and higher powers, NonSymmetric/AntiSymmetric/Symmetric/"
-        "Amplitude carriers, remainder tensors, inverse tensors, polynomial "
+        "Amplitude carriers with bra-ket symmetry 0, +1, -1 (also declared "
+        "through sym_tensors / antisym_tensors), remainder tensors, inverse tensors, polynomial "
         "factors and denominators, deltas, symbols, sqrt prefactors, provided "
         "and Einstein targets, 1-3 terms, occ/virt/general/spin sorts); "
         "(3) malformed: 3-index tensor with the unitary name, indices of "
@@ -109,6 +111,26 @@ def exhaustive_specs(full):
                 out.append({"name": "U", "targets": tg,
                             "sort": ["general", ""], "kind": "exh2",
                             "terms": [{"coef": "1", "facs": facs}]})
+    return out
+
+
+def exhaustive_braket_specs(full):
+    """all U_ab U_cd over {p,q,r} carried by bra-ket symmetric / antisymmetric
+    tensors (canonical form swaps the indices, with a sign for bks = -1)"""
+    idx = [[n, ""] for n in "pqr"]
+    tg_opts = [None, [], [idx[0]], [idx[1], idx[2]]]
+    if full:
+        tg_opts = [None] + [list(c) for k in range(4)
+                            for c in itertools.combinations(idx, k)]
+    out = []
+    for carrier in ("A1", "Am1"):
+        for a, b, c, d in itertools.product(idx, repeat=4):
+            for tg in tg_opts:
+                out.append({"name": "U", "targets": tg,
+                            "sort": ["general", ""], "kind": "exhbk:" + carrier,
+                            "terms": [{"coef": "1", "facs": [
+                                ["U", carrier, [a, b], 1],
+                                ["U", carrier, [c, d], 1]]}]})
     return out
 
 
@@ -199,7 +221,11 @@ def random_spec(rng):
     pool = [[letters[k], spin] for k in range(npool)]
     extra = [[letters[k], spin] for k in range(npool, min(npool + 2,
                                                           len(letters)))]
-    carrier = rng.choice(["N"] * 6 + ["A0", "A0", "A1", "S0", "M", "AU"])
+    carrier = rng.choice(["N"] * 6 + ["A0", "A0", "A0", "A1", "A1", "Am1",
+                                      "Am1", "Am1", "S0", "S1", "Sm1", "M",
+                                      "AU"])
+    assume = rng.choice([None, None, "sym", "antisym"]) \
+        if carrier == "A0" else None
     pattern = rng.choice(["pairs", "pairs", "chain", "powers", "random",
                           "random"])
     einstein = rng.random() < 0.4
@@ -212,7 +238,8 @@ def random_spec(rng):
         allidx = pool + extra
         tg = rng.sample(allidx, rng.randint(0, min(3, len(allidx))))
     return {"name": rng.choice(["U", "U", "A"]), "targets": tg,
-            "sort": [space, spin], "kind": "rnd:" + pattern, "terms": terms}
+            "sort": [space, spin], "kind": "rnd:" + pattern, "terms": terms,
+            "assume": assume}
 
 
 def malformed_spec(rng):
@@ -499,9 +526,10 @@ def carrier_symmetry(spec):
         for f in t["facs"]:
             if f[0] == "P":
                 cs |= {g[1] for _, ts in f[1] for g in ts if g[0] == "U"}
-    if "AU" in cs:
+    # U^{pq} antisymmetric in its two upper indices; U^p_q = -U^q_p
+    if cs & {"AU", "Am1", "Sm1"} or spec.get("assume") == "antisym":
         return "anti"
-    if cs & {"A1", "S1"}:
+    if cs & {"A1", "S1"} or spec.get("assume") == "sym":
         return "sym"
     return "none"
 
@@ -962,6 +990,7 @@ def run(ctx):
         "heterogeneous_sum_skipped", "ill_formed_regenerated")}
     run_specs(ctx, CORPUS, "corpus", stats)
     run_specs(ctx, exhaustive_specs(full=False), "exh", stats)
+    run_specs(ctx, exhaustive_braket_specs(full=not quick), "exhbk", stats)
     if not quick:
         run_specs(ctx, exhaustive_specs(full=True), "exh3", stats)
     dropped = {}
